@@ -26,7 +26,16 @@ fn mk<T>(cap: Option<usize>) -> (Sender<T>, Receiver<T>) {
     let ch = Arc::new(Chan { st: Mutex::new(State { q: VecDeque::new(), cap, senders: 1, receivers: 1 }), not_empty: Condvar::new(), not_full: Condvar::new() });
     (Sender { ch: ch.clone() }, Receiver { ch })
 }
-pub fn bounded<T>(cap: usize) -> (Sender<T>, Receiver<T>) { mk(Some(cap.max(1))) }
+thread_local! {
+    /// Simulation knob: upper bound applied to the capacity of every bounded channel created from now on
+    /// (tantivy's indexing pipeline holds 10 000 batches; a small bound makes producers block).
+    static CAPACITY_CAP: std::cell::Cell<Option<usize>> = const { std::cell::Cell::new(None) };
+}
+pub fn set_capacity_cap(cap: Option<usize>) { CAPACITY_CAP.with(|c| c.set(cap)); }
+pub fn bounded<T>(cap: usize) -> (Sender<T>, Receiver<T>) {
+    let cap = match CAPACITY_CAP.with(|c| c.get()) { Some(k) => cap.min(k), None => cap };
+    mk(Some(cap.max(1)))
+}
 pub fn unbounded<T>() -> (Sender<T>, Receiver<T>) { mk(None) }
 pub fn tick(_d: Duration) -> Receiver<Instant> { unimplemented!("tick is not modelled in the simulator") }
 
